@@ -11,6 +11,10 @@ PYPROJECTS = [
     "[tool.black]\nline-length = 120\nskip-magic-trailing-comma = true\n",
     "[tool.black]\nskip-string-normalization = true\n",
     "[tool.black]\npreview = true\nline-length = 100\n",
+    # keys next to the four options: they must not disturb the supported ones (black accepts a major version as required-version; unstable = false does not
+    # switch preview off)
+    "[tool.black]\npreview = true\nunstable = false\n",
+    "[tool.black]\nline-length = 70\nrequired-version = \"%s\"\n" % __import__("black").__version__.split(".")[0],
 ]
 
 
@@ -165,6 +169,11 @@ WS_LAYOUTS = [
     ("the default configuration block of docs/configuration.md (format-command = \"\")",
      {"pyproject.toml": "[tool.black]\nline-length = 60\n\n[tool.inline-snapshot]\nhash-length=15\ndefault-flags=[\"report\"]\nformat-command=\"\"\nskip-snapshot-updates-for-now=false\n"},
      "tests/test_w.py", "[tool.black]\nline-length = 60\n"),
+    ("preview with unstable = false, a long string value in a dict (wrapped in parentheses by the preview style only)",
+     {"pyproject.toml": "[tool.black]\npreview = true\nunstable = false\n"}, "tests/test_w.py", "[tool.black]\npreview = true\n",
+     "from inline_snapshot import snapshot\n\n\ndef get():\n    return {'name': 'n' * 12, 'text': 'long text ' * 9}\n\n\ndef test_a():\n    assert get() == snapshot({'name': 'nnnnnnnnnnnn', 'text': 'short'})\n"),
+    ("required-version given as the major version",
+     {"pyproject.toml": "[tool.black]\nline-length = 60\nrequired-version = \"%s\"\n" % __import__("black").__version__.split(".")[0]}, "tests/test_w.py", "[tool.black]\nline-length = 60\n"),
     ("nested project with its own black options", {"pyproject.toml": "[tool.black]\nline-length = 120\n", "sub/pyproject.toml": "[tool.black]\nline-length = 50\n"}, "sub/test_w.py",
      "[tool.black]\nline-length = 50\n"),
 ]
@@ -173,11 +182,11 @@ WS_STARTS = ("project root", "directory of the test file", "outside the project"
 
 def run_ws(item):
     import shutil
-    (name, files, test_path, applies), start = item
+    (name, files, test_path, applies, *rest), start = item
     outer = driver.scratch_dir("c20ws-")
     try:
         d = outer / "proj"
-        src = fmt(WS_TEST, applies)
+        src = fmt(rest[0] if rest else WS_TEST, applies)
         driver.write_project(d, dict(files, **{test_path: src}))
         tp = d / test_path
         if start == "project root":
